@@ -374,6 +374,11 @@ def fixed_corpus():
                     L('regex', '\\n')], origin='fixed:look-prio2'))
     out.append(Def([L('regex', '#(?-u:\\b{start})[a-z]+'), L('regex', '[a-z]+(?-u:\\b{end})'), L('regex', '[a-z]+[0-9]+'), L('token', '#'),
                     L('skip', ' ')], origin='fixed:look-startend'))
+    # a pattern ending in a look-ahead, and a longer one that reads on through the looked-at byte and completes only at the end of
+    # input: the state after that byte holds the late accept of the first pattern, has no byte edge and one end-of-input edge
+    out.append(Def([L('regex', '(?-u)end\\b'), L('regex', '(?-u)end;$'), L('token', ';'), L('skip', ' ')], origin='fixed:look-through-eoi'))
+    out.append(Def([L('regex', 'a'), L('regex', 'a$', prio=10), L('regex', 'ab$'), L('token', 'b', cb=11, value=True)], origin='fixed:look-through-eoi2'))
+    out.append(Def([L('regex', '[0-9]+(?-u:\\b)', cb=11, value=True), L('regex', '[0-9]+\\.(?m:$)'), L('token', '.'), L('skip', '[ \\n]')], origin='fixed:look-through-eoi3'))
     # string / comment style tokens, lazy and greedy
     out.append(Def([L('regex', '"([^"\\\\]|\\\\.)*"'), L('regex', '/\\*([^*]|\\*[^/])*\\*/'), L('regex', '//[^\\n]*', allow_greedy=True),
                     L('skip', '[ \\n]+'), L('regex', '[a-z]+')], origin='fixed:strings'))
@@ -467,6 +472,10 @@ def fixed_corpus():
     out.append(Def([L('regex', '[a-z]+'), L('regex', '"(?&inner)*"'), L('regex', '#(?&any)'), L('skip', '(?&ws)+')],
                    subpatterns=[('inner', '[^"]'), ('any', '.'), ('ws', '\\s')], origin='fixed:subpatterns'))
     out.append(Def([L('regex', '(?&letter)+'), L('token', '=')], subpatterns=[('letter', '[a-zα-ωé]')], origin='fixed:subpatterns2'))
+    # a subpattern used from a pattern of the other literal kind (str subpattern in a byte-string regex and the other way round, a
+    # byte-string subpattern referring to a str one): the subpattern keeps its own Unicode mode whatever the lexer's mode is
+    out.append(Def([L('regex', b'(?&word)', is_bytes=True), L('regex', '[0-9]+(?&bl)'), L('regex', b'<(?&tag)>', is_bytes=True), L('skip', ' +')],
+                   subpatterns=[('word', '\\w+'), ('bl', b'[a-z]\\s'), ('tag', b'(?&word)\\d')], origin='fixed:subpatterns-cross'))
     # stack probes: single-character skips, long tokens
     out.append(Def([L('skip', 'x'), L('regex', 'a+'), L('token', 'b'), L('regex', 'c[a-z]*d'), L('regex', 'y', cb=3), L('skip', 'w+', cb=17)], origin='fixed:stack'))
     # two-byte classes: pairs of isolated bytes at every power-of-two distance, the lower byte with and without that bit set (a pair
